@@ -78,6 +78,17 @@ ChachaBad(e) ==
       \cup (IF Bytes(e.out2) = inp THEN {} ELSE {"C09.not-involution"})
       \cup (IF "inpl" \in DOMAIN e /\ Bytes(e.inpl) # ref THEN {"C09.keystream-mismatch/in-place"} ELSE {})
 
+\* a chunk-sized input: the logged blocks (first, second, middle, last two) are recomputed at counter + index; every other block
+\* was compared by the driver with a one-block call at counter + index (piecediff = -1), and those calls are the short cases above
+ChachaLongBad(e) ==
+   LET ctr == <<e.ctr[1], e.ctr[2]>>
+       bl == Arr(e.blocks)
+       badBlocks == {k \in DOMAIN bl : Bytes(bl[k].out) # ChaCha20Xor(Bytes(e.key), Bytes(e.nonce), AddSmall32(ctr, bl[k].i), Bytes(bl[k].inp))}
+   IN (IF badBlocks = {} /\ e.outlen = e.n /\ e.piecediff = -1 THEN {}
+       ELSE {IF Wraps(ctr, e.n) THEN "C09.keystream-mismatch/long-input-counter-wrap" ELSE "C09.keystream-mismatch/long-input"})
+      \cup (IF e.inv = 1 THEN {} ELSE {"C09.not-involution/long-input"})
+      \cup (IF e.inplsame = 1 THEN {} ELSE {"C09.keystream-mismatch/in-place"})
+
 CidCounter(cid) == CounterOfLE(cid[1], cid[2], cid[3], cid[4])
 
 EncWkBad(e) ==
@@ -115,6 +126,7 @@ Eval(e) ==
    CASE e.op = "sha" -> [bad |-> ShaBad(e), a |-> 0, b |-> 0]
      [] e.op = "hmac" -> LET hm == HmacBad(e) IN [bad |-> hm[1], a |-> hm[2], b |-> 0]
      [] e.op = "chacha" -> [bad |-> ChachaBad(e), a |-> 0, b |-> 0]
+     [] e.op = "chachal" -> [bad |-> ChachaLongBad(e), a |-> 0, b |-> 0]
      [] e.op = "encwk" -> [bad |-> EncWkBad(e), a |-> 0, b |-> 0]
      [] e.op = "decwk" -> [bad |-> DecWkBad(e), a |-> 0, b |-> 0]
      [] e.op = "signed" -> LET macok == SignedMacOk(e) IN [bad |-> SignedBad(e, macok), a |-> IF macok THEN 1 ELSE 0, b |-> 0]
@@ -126,6 +138,7 @@ Step(e) ==
                [] e.op = "hmac" -> Inc(Inc(Inc(Inc(stats, "hmac", 1), "cands", Len(Seqs(e.cands))), "cok", res'.a), "vacc", Count(Seqs(e.acc), LAMBDA x : x = 1))
                [] e.op = "chacha" -> Inc(Inc(Inc(stats, "chacha", 1), "blocks", NBlocks(Len(Bytes(e.inp)))), "wrap",
                                          IF Wraps(<<e.ctr[1], e.ctr[2]>>, Len(Bytes(e.inp))) THEN 1 ELSE 0)
+               [] e.op = "chachal" -> Inc(Inc(Inc(stats, "chacha", 1), "blocks", Len(Arr(e.blocks))), "wrap", IF Wraps(<<e.ctr[1], e.ctr[2]>>, e.n) THEN 1 ELSE 0)
                [] e.op \in {"encwk", "decwk"} -> Inc(stats, "withkey", 1)
                [] e.op = "signed" -> Inc(Inc(Inc(Inc(Inc(stats, "signed", 1), "sacc", e.acc), "smacok", res'.a),
                                          "sgood", IF res'.a = 1 /\ e.dec = 1 THEN 1 ELSE 0), "sundec", IF res'.a = 1 /\ e.dec # 1 THEN 1 ELSE 0)
